@@ -118,28 +118,17 @@ def durationWitness : DescSet :=
   let m : Msg := ⟨"wt.v1.M", "wt.v1", "M", "M", none, none, "nofield", none, [], [f]⟩
   ⟨["wt.v1.M"], [], ["wt.v1.M"], [m], []⟩
 
-/-- `message M { repeated j5.types.any.v1.Any a = 1; }` — the witness of the repaired
-`any-in-collection` -/
-def anyListWitness : DescSet :=
-  let f : FieldD := ⟨"a", "a", 1, .message, .list, -1,
-    .msg "j5.types.any.v1.Any" "j5.types.any.v1" "Any", false, none, none, none, none, none, none⟩
-  let m : Msg := ⟨"wt.v1.M", "wt.v1", "M", "M", none, none, "nofield", none, [], [f]⟩
-  ⟨["wt.v1.M"], [], ["wt.v1.M"], [m], []⟩
-
 -- (`String.startsWith` on a long enough string does not unfold for the elaborator's `decide`; the
 -- kernel evaluates it: `decide +kernel` adds no axiom)
-example : linked structWitness = true ∧ linked durationWitness = true ∧ linked anyListWitness = true := by
-  decide +kernel
+example : linked structWitness = true ∧ linked durationWitness = true := by decide +kernel
 
-/-- the three repaired witnesses are schema errors now (Go: first ops of every `schema.reflect`
-shard) -/
+/-- the two repaired witnesses are schema errors now (Go: among the first ops of every
+`schema.reflect` shard) -/
 theorem C18_unsupported_are_errors :
     schemaSetFromFiles structWitness = .err "unsupported google type" ∧
-    schemaSetFromFiles durationWitness = .err "unsupported google type" ∧
-    schemaSetFromFiles anyListWitness = .err "arrays / maps of Any are not supported" :=
+    schemaSetFromFiles durationWitness = .err "unsupported google type" :=
   ⟨schemaSetFromFilesN_sound structWitness 10 _ (by decide +kernel),
-   schemaSetFromFilesN_sound durationWitness 10 _ (by decide +kernel),
-   schemaSetFromFilesN_sound anyListWitness 10 _ (by decide)⟩
+   schemaSetFromFilesN_sound durationWitness 10 _ (by decide +kernel)⟩
 
 /-- **Paths resolve, kinds match, names are unique.** For every descriptor set, if reflection
 succeeds then every schema of the set points into the message it was built from, with matching
@@ -203,22 +192,49 @@ example :
       ⟨"wt.v1", "M"⟩ = .ok [child, name] := by
   simp [clientProperties, objectProps, Reg.find, Outcome.bind, clientProps, onStack, Outcome.map]
 
-/-- **The codec's checks pass** (partial: for properties that point at a field; flattened paths
-are concatenations of such steps). If a property of a schema built from message `m` describes
-field `f` of `m`, then `newPropSet` resolves its path to a field with that number and every
-kind check of the field factories succeeds — no error, no panic. Together with
-`C18_paths_resolve` this covers every non-flattened property of every reflected schema. -/
+/-- **The codec's checks pass** (partial: for properties that point at a field — flattened paths
+are concatenations of such steps —, and not for a list / map of `Any`, open finding
+`any-in-collection`). If a property of a schema built from message `m` describes field `f` of
+`m`, then `newPropSet` resolves its path to a field with that number and every kind check of the
+field factories succeeds — no error, no panic. Together with `C18_paths_resolve` this covers
+every non-flattened property of every reflected schema. -/
 theorem C18_codec_ok_partial (ds : DescSet) (m : Msg) (f : FieldD) (hf : f ∈ m.fields) (s : RField)
-    (h : describes ds f s = true) :
+    (h : describes ds f s = true) (hany : anyInCollection s = false) :
     (∃ g, resolvePath ds m [f.number] = .ok (some g) ∧ g ∈ m.fields ∧ g.number = f.number) ∧
     reflectField f s = .ok () :=
-  ⟨resolvePath_single ds m f hf, reflectField_ok ds f s h⟩
+  ⟨resolvePath_single ds m f hf, reflectField_ok ds f s h hany⟩
 
-/-- what the strengthened `describes` excludes on this side: an array of `Any` passes the message
-factory but `newMessageArrayField` has no case for it (the reader no longer produces it) -/
-example : reflectField ⟨"a", "a", 1, .message, .list, -1,
-      .msg "j5.types.any.v1.Any" "j5.types.any.v1" "Any", false, none, none, none, none, none, none⟩
-    (.array .any) = .err "unsupported array item schema / unsupported schema type" := by decide
+/-- `message M { repeated j5.types.any.v1.Any a = 1; }` — the witness of the open finding
+`any-in-collection` (the Go side runs it in every `schema.reflect` shard) -/
+def anyListWitness : DescSet :=
+  let f : FieldD := ⟨"a", "a", 1, .message, .list, -1,
+    .msg "j5.types.any.v1.Any" "j5.types.any.v1" "Any", false, none, none, none, none, none, none⟩
+  let m : Msg := ⟨"wt.v1.M", "wt.v1", "M", "M", none, none, "nofield", none, [], [f]⟩
+  ⟨["wt.v1.M"], [], ["wt.v1.M"], [m], []⟩
+
+theorem anyListWitness_reflects :
+    schemaSetFromFiles anyListWitness =
+      .ok [⟨"wt.v1", "M", some (.object "wt.v1" "M" none [] [⟨"a", false, false, [1], .array .any⟩]),
+        "wt.v1.M"⟩] :=
+  schemaSetFromFilesN_sound anyListWitness 10 _ (by decide)
+
+/-- the full statement (every reflected property passes the codec's checks) … -/
+def C18_codec_ok_full : Prop :=
+  ∀ (ds : DescSet) (reg : Reg), schemaSetFromFiles ds = .ok reg →
+    ∀ e ∈ reg, ∀ p k en am ps, e.to = some (.object p k en am ps) →
+      ∀ m ∈ ds.msgs, m.full = e.src → ∀ prop ∈ ps, ∀ f ∈ m.fields, prop.path = [f.number] →
+        reflectField f prop.schema = .ok ()
+
+/-- … is false of the code as it is: the reader accepts `repeated Any`, `newMessageArrayField`
+has no case for it (the repair — array / map of Any in `lib/j5reflect` and `internal/codec` — is
+not a small one; rejecting the field at reflection, a9e5f7d, broke j5s packages with `array:any`
+and was taken back in a76cc98) -/
+theorem C18_codec_ok_counterexample : ¬ C18_codec_ok_full := by
+  intro h
+  have := h anyListWitness _ anyListWitness_reflects _ (List.mem_singleton.mpr rfl) _ _ _ _ _ rfl
+    _ (List.mem_singleton.mpr rfl) rfl _ (List.mem_singleton.mpr rfl) _ (List.mem_singleton.mpr rfl) rfl
+  revert this
+  decide
 
 /-! ## Non-vacuity -/
 
